@@ -140,7 +140,9 @@ theorem accepted_prefix_step (e : Ep) (ev : Ev) : e.accepted <+: (step e ev).1.a
     simp only []
     split
     · exact List.prefix_refl _
-    · exact acc_pump e n
+    · split
+      · exact List.prefix_refl _
+      · exact acc_pump { e with txIdle := false } n
   | advance ms => exact List.prefix_refl _
   | start =>
     simp only []
